@@ -72,7 +72,18 @@ func (t *ftr) noteObj(id *ast.Ident) {
 		t.objs = map[string]types.Object{}
 	}
 	if old, ok := t.objs[id.Name]; ok && old != obj && old.Parent() != nil && old.Parent().Contains(id.Pos()) {
-		t.fail(id, "variable "+id.Name+" shadows a variable of an enclosing scope")
+		// shadowing: the inner variable gets a state variable of its own
+		if t.x.objName == nil {
+			t.x.objName = map[types.Object]string{}
+		}
+		for k := 1; ; k++ {
+			cand := fmt.Sprintf("%s_%d", id.Name, k)
+			if _, used := t.byName[cand]; !used {
+				t.x.objName[obj] = cand
+				break
+			}
+		}
+		return // the outer variable stays the one later sibling scopes may shadow again
 	}
 	t.objs[id.Name] = obj
 }
@@ -98,6 +109,11 @@ func (t *ftr) declare(name string, ty types.Type, n ast.Node) {
 		v.kind, v.lean, v.zero = "err", "Go.Err", "Go.Err.nil"
 	} else if b, ok := ty.Underlying().(*types.Basic); ok && b.Kind() == types.Bool {
 		v.kind, v.lean, v.zero = "bool", "Bool", "false"
+	}
+	if sl, ok := ty.Underlying().(*types.Slice); ok && v.kind == "" {
+		if it, ok := intType(sl.Elem()); ok { // []uint64, []int32, …: a list of fixed-width integers
+			v.kind, v.w, v.lean, v.zero = "ints", it.w, fmt.Sprintf("List (BitVec %d)", it.w), "[]"
+		}
 	}
 	if v.kind == "" {
 		t.fail(n, "unsupported variable type "+ty.String()+" for "+name)
@@ -153,8 +169,8 @@ func (t *ftr) errExpr(e ast.Expr) string {
 		case "ErrValueOverflow":
 			return "Go.Err.overflow"
 		}
-		if v, ok := t.byName[e.Name]; ok && v.kind == "err" {
-			return "s." + e.Name
+		if v, ok := t.byName[t.x.identName(e)]; ok && v.kind == "err" {
+			return "s." + t.x.identName(e)
 		}
 		if strings.HasPrefix(e.Name, "Err") && t.isErr(e) { // any other package-level sentinel
 			return fmt.Sprintf("(Go.Err.other %q)", e.Name)
@@ -316,6 +332,23 @@ func (t *ftr) valueAs(e ast.Expr, v svar) string {
 		return t.errExpr(e)
 	case "bool":
 		return t.cond(e)
+	case "ints":
+		if id, ok := e.(*ast.Ident); ok && id.Name == "nil" {
+			return fmt.Sprintf("([] : List (BitVec %d))", v.w)
+		}
+		if sn := t.x.stateName(e); sn != "" && t.byName[sn].kind == "ints" && t.byName[sn].w == v.w {
+			return "s." + sn
+		}
+		// append(xs, e): one element appended
+		if ce, ok := e.(*ast.CallExpr); ok && len(ce.Args) == 2 {
+			if f, ok := ce.Fun.(*ast.Ident); ok && f.Name == "append" {
+				if sn := t.x.stateName(ce.Args[0]); sn != "" && t.byName[sn].kind == "ints" && t.byName[sn].w == v.w {
+					t.pendingGuards = append(t.pendingGuards, t.guards(ce.Args[1])...)
+					return fmt.Sprintf("(s.%s ++ [%s])", sn, t.x.exprAs(ce.Args[1], ityp{v.w, false}))
+				}
+			}
+		}
+		return t.fail(e, "unsupported []int expression")
 	case "int":
 		return t.x.exprAs(e, ityp{v.w, false})
 	}
@@ -422,14 +455,14 @@ func (t *ftr) assign(lhs []ast.Expr, rhs []ast.Expr, tok token.Token, n ast.Node
 					if tok == token.DEFINE {
 						if obj := t.p.info.Defs[id]; obj != nil {
 							t.noteObj(id)
-							t.declare(id.Name, obj.Type(), id)
+							t.declare(t.x.identName(id), obj.Type(), id)
 						}
 					}
-					v, known := t.byName[id.Name]
+					v, known := t.byName[t.x.identName(id)]
 					if !known || v.kind != sig.res[i].kind || v.w != sig.res[i].w {
 						return t.fail(l, "call-assignment to a variable of another shape")
 					}
-					ups = append(ups, fmt.Sprintf("%s := %s", id.Name, proj(i, len(sig.res))))
+					ups = append(ups, fmt.Sprintf("%s := %s", t.x.identName(id), proj(i, len(sig.res))))
 				}
 				return "(fun s => " + withGuards(gs, fmt.Sprintf("match %s with | .ret r c => .next { s with %s } | .next _ => .panic | .panic => .panic | .diverge => .diverge", term, strings.Join(ups, ", "))) + ")"
 			}
@@ -467,10 +500,10 @@ func (t *ftr) assign(lhs []ast.Expr, rhs []ast.Expr, tok token.Token, n ast.Node
 			if tok == token.DEFINE {
 				if obj := t.p.info.Defs[l]; obj != nil {
 					t.noteObj(l)
-					t.declare(l.Name, obj.Type(), l)
+					t.declare(t.x.identName(l), obj.Type(), l)
 				}
 			}
-			v, ok := t.byName[l.Name]
+			v, ok := t.byName[t.x.identName(l)]
 			if !ok {
 				return t.fail(l, "assignment to an unknown variable "+l.Name)
 			}
@@ -498,7 +531,7 @@ func (t *ftr) assign(lhs []ast.Expr, rhs []ast.Expr, tok token.Token, n ast.Node
 				t.p.info.Types[be] = types.TypeAndValue{Type: t.p.info.TypeOf(l)}
 				val = t.x.expr(be)
 			}
-			ups = append(ups, fmt.Sprintf("%s := %s", l.Name, val))
+			ups = append(ups, fmt.Sprintf("%s := %s", t.x.identName(l), val))
 		case *ast.IndexExpr:
 			sn := t.x.stateName(l.X)
 			if sn == "" || t.byName[sn].kind != "bytes" || tok != token.ASSIGN {
@@ -542,7 +575,8 @@ func (t *ftr) stmt(s ast.Stmt) string {
 				return t.fail(s, "unsupported initialised var declaration")
 			}
 			for _, n := range vs.Names {
-				t.declare(n.Name, t.p.info.Defs[n].Type(), n)
+				t.noteObj(n)
+				t.declare(t.x.identName(n), t.p.info.Defs[n].Type(), n)
 			}
 		}
 		return "Go.skip"
@@ -575,7 +609,7 @@ func (t *ftr) stmt(s ast.Stmt) string {
 		var gs, vals []string
 		t.pendingGuards = nil
 		for i, r := range s.Results {
-			if t.res[i].kind != "bytes" {
+			if t.res[i].kind != "bytes" && t.res[i].kind != "ints" {
 				gs = append(gs, t.guards(r)...)
 			}
 			vals = append(vals, t.valueAs(r, t.res[i]))
@@ -729,6 +763,7 @@ func translateFunc(p *pkgInfo, name string, b *strings.Builder) []string {
 	}
 	for _, f := range fd.Type.Params.List {
 		for _, n := range f.Names {
+			t.noteObj(n)
 			t.declare(n.Name, p.info.Defs[n].Type(), n)
 			if v, ok := t.byName[n.Name]; ok {
 				params = append(params, fmt.Sprintf("(%s : %s)", n.Name, v.lean))
@@ -749,6 +784,12 @@ func translateFunc(p *pkgInfo, name string, b *strings.Builder) []string {
 					v.kind, v.lean = "bytes", "Bytes"
 				} else if ty.String() == "bool" {
 					v.kind, v.lean = "bool", "Bool"
+				} else if sl, ok := ty.Underlying().(*types.Slice); ok {
+					if it, ok := intType(sl.Elem()); ok {
+						v.kind, v.w, v.lean = "ints", it.w, fmt.Sprintf("List (BitVec %d)", it.w)
+					} else {
+						t.fail(f.Type, "unsupported result type")
+					}
 				} else {
 					t.fail(f.Type, "unsupported result type")
 				}
@@ -756,6 +797,7 @@ func translateFunc(p *pkgInfo, name string, b *strings.Builder) []string {
 				continue
 			}
 			for _, n := range f.Names {
+				t.noteObj(n)
 				t.declare(n.Name, ty, n)
 				if v, ok := t.byName[n.Name]; ok {
 					t.res = append(t.res, *v)
@@ -866,7 +908,7 @@ func writeWireFuncs(p *pkgInfo, outPath string) {
 		"EncodeTag", "EncodeZigZag32", "EncodeZigZag64", "DecodeZigZag32", "DecodeZigZag64",
 		"Decoder.Offset", "Decoder.Reset", "Decoder.DecodeTag", "Decoder.DecodeUInt64", "Decoder.DecodeInt64", "Decoder.DecodeUInt32",
 		"Decoder.DecodeInt32", "Decoder.DecodeSInt32", "Decoder.DecodeSInt64", "Decoder.DecodeFixed32", "Decoder.DecodeFixed64",
-		"Decoder.DecodeBytes", "Decoder.Skip", "Decoder.DecodeBool", "Decoder.More", "Decoder.Seek", "Encoder.EncodeBool",
+		"Decoder.DecodeBytes", "Decoder.Skip", "Decoder.DecodeBool", "Decoder.More", "Decoder.Seek", "Decoder.DecodePackedUint64", "Encoder.EncodeBool",
 		"Encoder.EncodeUInt64", "Encoder.EncodeUInt32", "Encoder.EncodeInt64", "Encoder.EncodeInt32", "Encoder.EncodeSInt32", "Encoder.EncodeSInt64"} {
 		if errs := translateFunc(p, fn, &b); len(errs) > 0 {
 			fmt.Println("wire primitive", fn, "is outside the translatable fragment (Bridge/WireFuncs.lean no longer applies):")
